@@ -109,9 +109,17 @@ impl C03 {
                     for r in 1..n {
                         exp[r] = common_prefix(&text, sa[r - 1], sa[r]) as isize;
                     }
+                    // random access into the compressed array must agree with its decompressed form (incl. the final -1)
+                    let la = lcp(&text, &sa);
+                    let by_get: Vec<Option<isize>> = (0..=n + 1).map(|i| la.get(i)).collect();
+                    ctx.eval(n as u64 + 2);
                     if l != exp {
                         let at = (0..=n).find(|&i| l.get(i) != exp.get(i)).unwrap_or(0);
                         ctx.violation("lcp:wrong", desc(&format!("lcp[{}] = {:?} expected {:?}", at, l.get(at), exp.get(at))));
+                    } else if let Some(at) = (0..=n + 1).find(|&i| by_get[i] != exp.get(i).copied()) {
+                        ctx.violation("lcp:get-wrong", desc(&format!("lcp.get({}) = {:?} expected {:?} (n = {})", at, by_get[at], exp.get(at), n)));
+                    } else if la.len() != n + 1 {
+                        ctx.violation("lcp:wrong-length", desc(&format!("len {} expected {}", la.len(), n + 1)));
                     } else {
                         ctx.count("lcp_arrays_checked", 1);
                         let maxl = exp.iter().cloned().max().unwrap_or(0);
@@ -350,6 +358,54 @@ impl Monitor for C03 {
                     let mut t: Vec<u8> = unit.iter().cycle().take(ctx.by_tier(64, 296, 1496)).cloned().collect();
                     t.push(b'$');
                     ("directed:nested-lms", t)
+                }
+                14 => {
+                    // more than 65536 distinct LMS substrings: the reduced text needs 32-bit labels
+                    if ctx.tiny() {
+                        return;
+                    }
+                    let n = 400_000;
+                    let mut t: Vec<u8> = (0..n).map(|_| 1 + rng.below(255) as u8).collect();
+                    t.push(0);
+                    if check_sa(ctx, &t, "directed:large-random-bytes").is_some() {
+                        ctx.count("sa:texts_with_more_than_65536_lms_substrings", 1);
+                    }
+                    return;
+                }
+                15 => {
+                    if ctx.tiny() {
+                        return;
+                    }
+                    let n = 300_000;
+                    let mut t: Vec<u32> = (0..n).map(|i| if i <= 1000 { i as u32 } else { 1 + rng.below(1000) as u32 }).collect();
+                    t[0] = 1;
+                    t.push(0);
+                    let r = guard(|| suffix_array_int(&t));
+                    ctx.eval(1);
+                    let desc = |what: &str| Obj::new().s("class", "directed:large-int-text").u("len", t.len() as u64).s("what", what).done();
+                    match r {
+                        Err(p) => ctx.violation(&format!("sa_int:panic:{}", panic_site(&p)), desc(&p)),
+                        Ok(sa) => {
+                            let mut seen = vec![false; t.len()];
+                            let mut ok = sa.len() == t.len();
+                            for &p in sa.iter() {
+                                if p >= t.len() || seen[p] {
+                                    ok = false;
+                                    break;
+                                }
+                                seen[p] = true;
+                            }
+                            if !ok {
+                                ctx.violation("sa_int:not-a-permutation", desc("large text"));
+                            } else if let Some(r) = (1..sa.len()).find(|&r| t[sa[r - 1]..] >= t[sa[r]..]) {
+                                ctx.violation("sa_int:wrong", desc(&format!("ranks {},{} out of order", r - 1, r)));
+                            } else {
+                                ctx.count("sa:texts_with_more_than_65536_lms_substrings", 1);
+                            }
+                        }
+                    }
+                    ctx.shape(true, &("C03", "int", "large"));
+                    return;
                 }
                 12 => ("directed:multi-adjacent-sentinels", b"AB$$BA$AB$$".to_vec()),
                 13 => ("directed:multi-equal-seqs", b"ACGT$ACGT$ACGT$".to_vec()),
